@@ -8,7 +8,9 @@ AUTHENTICATE, SETEVENTS, TAKEOWNERSHIP, RESETCONF and the 650 STATUS_CLIENT even
 real parser), time is the reactor's ``Clock``.
 
 Case (driver "launch"):
-  {"cfg": {"hold_all": bool (every command after the STATUS_CLIENT subscription is answered only by an "own" action),
+  {"cfg": {"hold_setevents": bool (the SETEVENTS answer is given by an "own" action; no event before it),
+           "emit_reverse": bool (Tor writes an event to the newest subscribed connection first),
+           "hold_all": bool (every command after the STATUS_CLIENT subscription is answered only by an "own" action),
            "datadir": "none"|"existing"|"new",  "timeout": null|int,  "kill_on_stderr": bool,
            "socks": null|int,  "control": null|int|"unix",  "non_anon": bool,  "auto": bool,
            "stdout": 0|1|2,  "progress_cb": bool,  "stdio": bool,
@@ -73,6 +75,9 @@ RULE = ("Cases = launch() configuration (temp / existing / not-yet-existing call
         "directly (nobody waiting unless the schedule asks), when_connected() asked at arbitrary points of the "
         "schedule, (driver 'pair') two launches alive on one reactor with merged schedules, (driver 'chain') "
         "two or three sequential launches re-using one TorConfig object, and a temp area reached through a symlink. "
+        "Listener lines are independent of the connection actions (a second line may arrive while the first "
+        "attempt is still pending); the SETEVENTS answer can be held like the ownership answers; Tor writes an "
+        "event to subscribed connections oldest- or newest-first. "
         "Non-trivial = the process was spawned, at "
         "least two of {control connection authenticated, PROGRESS=100 delivered, timeout elapsed, process "
         "ended} actually happened, and the launch result fired; distinct = distinct canonical JSON of the "
@@ -283,6 +288,11 @@ class _Conn(object):
             self.outstanding.append(line)
             return None
         if word == "SETEVENTS":
+            if self.world.cfg.get("hold_setevents"):
+                # the answer to the subscription itself travels slowly: given by an ["own", ...] action; Tor
+                # writes no event before that answer, so the connection counts as subscribed only then
+                self.outstanding.append(line)
+                return None
             self.subscribed = "STATUS_CLIENT" in line.split(" ")[1:]
             return NotImplemented
         if self.world.cfg.get("hold_all") and self.subscribed:
@@ -595,7 +605,9 @@ class _World(object):
                 word = line.split(" ")[0].upper()
                 is_own = word == "TAKEOWNERSHIP" or (word == "RESETCONF" and "__OwningControllerProcess" in line)
                 if action[1] == "ack" and not is_own:
-                    # a held non-ownership command (hold_all): Tor's normal answer
+                    # a held non-ownership command (hold_all / hold_setevents): Tor's normal answer
+                    if word == "SETEVENTS":
+                        c.subscribed = "STATUS_CLIENT" in line.split(" ")[1:]
                     r = c._normal(line, word)
                     if r is NotImplemented:
                         r = c.srv.builtin(line)
@@ -1277,6 +1289,8 @@ def configs():
         "tmp_symlink": st.sampled_from([False, False, True]),
         # Tor writes an event to the newest subscribed connection first instead of the oldest
         "emit_reverse": st.booleans(),
+        # the answer to SETEVENTS is given by an "own" action too (no event is written before it)
+        "hold_setevents": st.sampled_from([False, False, True]),
     })
 
 
@@ -1359,7 +1373,9 @@ def cases(draw):
             sched.append(act)
             end = chunk_end(stream, pos, act)
             if end > pos:
-                if MARK in stream[pos:end] and not attempted:
+                if MARK in stream[pos:end] and (not attempted or pending < 2):
+                    # (optimistic: a second listener line while the first attempt is pending starts no second
+                    # attempt in txtorcon as it is; the driver then skips the surplus connect action)
                     attempted = True
                     pending += 1
                 pos = end
@@ -1382,7 +1398,7 @@ def cases(draw):
                 pending -= 1
                 if how == "ok":
                     conns += 1
-                    own_left += 8 if cfg.get("hold_all") else 2
+                    own_left += (8 if cfg.get("hold_all") else 2) + (2 if cfg.get("hold_setevents") else 0)
                 else:
                     attempted = False
                     conns += 1 if how == "authfail" else 0
@@ -1483,6 +1499,8 @@ def _cfg(**kw):
 TO_100 = ["prog", 11]
 SKIP2 = ["out", len(STDOUTS[0][0]) + len(STDOUTS[0][1])]   # the two lines before the listener line, one chunk
 
+REST = ["out", 10 ** 6]      # everything the child still has to print, one chunk
+
 SCENARIOS = {
     # name: (cfg, threads)
     "happy-vs-timeout-vs-exit": (_cfg(), [
@@ -1520,6 +1538,12 @@ SCENARIOS = {
         [["conn", "ok"], ["own", "ack", 0]],
         [TO_100],
         [["timeout"]],
+        [["exit", "code", 1]]]),
+    "two-attempts-pending-held-answers": (_cfg(stdout=1, hold_setevents=True, hold_all=True), [
+        [["line"], REST],
+        [["conn", "ok"], ["conn", "ok"]],
+        [["own", "ack", 0], ["own", "ack", 0], ["own", "ack", 1]],
+        [TO_100],
         [["exit", "code", 1]]]),
     "stderr-kills": (_cfg(stdout=1), [
         [["line"]],
@@ -1567,7 +1591,6 @@ DIRECT_SCENARIOS = {
         [["ask"], ["ask"]]]),
 }
 
-REST = ["out", 10 ** 6]      # everything the child still has to print, one chunk
 
 RETRY_SCENARIOS = {
     # a first control connection that got as far as an acknowledged TAKEOWNERSHIP, then the attempt fails
@@ -1583,6 +1606,13 @@ RETRY_SCENARIOS = {
          ["conn", "ok"], ["own", "ack", 0], ["own", "ack", 0]],
         [TO_100],
         [["exit", "code", 1]]]),
+    # both listener lines arrive before the first connection attempt has got anywhere; each connection's
+    # SETEVENTS answer is held, so a second attempt (if one is started) overlaps the first one's set-up
+    "two-listener-lines-before-first-connect": (_cfg(stdout=1, timeout=None, hold_setevents=True), [
+        [["line"], REST],
+        [["conn", "ok"], ["conn", "ok"]],
+        [["own", "ack", 0], ["own", "ack", 0]],
+        [TO_100]]),
     "retry-after-connection-lost": (_cfg(stdout=1, timeout=None), [
         [["line"], ["conn", "ok"], ["own", "ack", 0], ["lose", 0], REST,
          ["conn", "ok"], ["own", "ack", 0], ["own", "ack", 0]],
@@ -1794,6 +1824,9 @@ MUTANTS = [
      "            data_directory = config.DataDirectory\n"
      "        except KeyError:\n"
      "            data_directory = None\n"),
+    # --- every listener line starts another connection attempt, also while one is pending
+    ("connect-attempts-not-serialised", "txtorcon/controller.py",
+     "            self.attempted_connect = True\n", "            pass\n"),
     ("timeout-fires-success-path", "txtorcon/controller.py",
      "        fail = Failure(RuntimeError(\"timeout while launching Tor\"))\n        self._maybe_notify_connected(fail)\n",
      "        self._maybe_notify_connected(self)\n"),
